@@ -120,6 +120,8 @@ Definition requested (ts : Z) (c : cmd) (e : tkey * unit) : Prop :=
   | CSetEx k d _ => e = ((d + sec ts, TK, k), tt)
   | CExpire TK k d => e = ((sec ts + d, TK, k), tt)
   | CExpire t k d => e = ((d + sec ts, t, k), tt)
+  | CSetOpt k _ ttl _ _ => 0 < ttl /\ e = ((ttl + sec ts, TK, k), tt)
+  | CSetIfEq k _ _ ttl => 0 < ttl /\ e = ((ttl + sec ts, TK, k), tt)
   | _ => False
   end.
 
@@ -245,6 +247,35 @@ Proof.
     destruct (el_get s TL k (h_ver h) (SI (if head then hd0 else tl0))); cbn [fst]; [|rewrite tidx_apply_fix; auto].
     match goal with |- context [list_set_meta ?a ?b ?c ?d ?e] => destruct (list_set_meta a b c d e) as [s2|] eqn:LS end; cbn [fst]; auto.
     rewrite (tidx_list_set_meta _ _ _ _ _ _ LS). auto.
+  - (* set with options *) unfold do_setopt. destruct (kv_prepare Local s ts k) as [[h ov] ex].
+    destruct (kv_cur ov ex); [destruct nx | destruct xx]; cbn [fst]; auto;
+      destruct (kv_reset Local s ts k v ttl) eqn:R; cbn [fst]; auto;
+      intros H; destruct (tidx_kv_reset _ _ _ _ _ _ _ R H) as [|[? ->]]; auto.
+  - (* setifeq *) unfold do_setifeq. destruct (kv_prepare Local s ts k) as [[h ov] ex].
+    destruct (eq_cur (kv_cur ov ex) old); cbn [fst]; auto.
+    destruct (kv_reset Local s ts k v ttl) eqn:R; cbn [fst]; auto.
+    intros H; destruct (tidx_kv_reset _ _ _ _ _ _ _ R H) as [|[? ->]]; auto.
+  - (* delifeq *) unfold do_delifeq. destruct (kv_raw Local s ts k) as [[h ov] ex].
+    destruct (negb (eq_cur ov old) && negb ex); cbn [fst]; auto.
+  - (* ltrim *) unfold do_ltrim. destruct (coll_header Local s ts TL k) as [[h ud] ex].
+    destruct (not_exist_or_expired ud ex); cbn [fst]; auto. destruct (list_meta_of ud) as [[hd tl] llen]. cbv zeta.
+    match goal with |- context [if ?c then _ else _] => destruct c end.
+    + cbn [fst]. destruct (llen =? 0); auto.
+    + match goal with |- context [list_set_meta ?x ?y ?z ?u ?w] => destruct (list_set_meta x y z u w) as [s2|] eqn:LS end; cbn [fst]; auto.
+      rewrite (tidx_list_set_meta _ _ _ _ _ _ LS), !tidx_fold; auto.
+  - (* lset *) unfold do_lset. destruct (coll_header Local s ts TL k) as [[h ud] ex].
+    destruct (not_exist_or_expired ud ex); cbn [fst]; auto. destruct (list_meta_of ud) as [[hd tl] size]. cbv zeta.
+    destruct (size =? 0); cbn [fst]; auto.
+    match goal with |- context [if ?c then _ else _] => destruct c end; cbn [fst]; auto.
+    destruct (list_set_meta s k h hd tl) as [s1|] eqn:LS; cbn [fst]; auto.
+    unfold el_put. cbn [tidx]. rewrite (tidx_list_set_meta _ _ _ _ _ _ LS). auto.
+  - (* zremrangebyrank *) unfold do_zremrangebyrank. destruct (coll_header Local s ts TZ k) as [[h ud] ex].
+    destruct ex; cbn [fst]; auto. cbv zeta. destruct (size_of ud =? 0); cbn [fst]; auto.
+    match goal with |- context [if ?c then _ else _] => destruct c end.
+    { destruct (not_exist_or_expired ud false); cbn [fst]; auto. }
+    match goal with |- context [if ?c then _ else _] => destruct c end; cbn [fst]; auto.
+    match goal with |- context [if ?c then _ else _] => destruct c end; cbn [fst]; rewrite tidx_incr_size; auto.
+    rewrite tidx_fold; auto.
 Qed.
 
 Lemma tidx_local_del_key s e e' : In e' (tidx (local_del_key s e)) -> In e' (tidx s).
